@@ -614,8 +614,12 @@ type parsed struct {
 func parseBytes(name string, src []byte) parsed {
 	fs := parser.NewFileSet()
 	sf := fs.AddFile(name, -1, len(src))
+	before := string(src)
 	p := parser.NewParser(sf, src, nil)
 	file, err := p.ParseFile()
+	if string(src) != before {
+		panic(fmt.Sprintf("the parser changed the source bytes it was given: %q became %q", before, src))
+	}
 	return parsed{fs: fs, sf: sf, file: file, err: err}
 }
 
